@@ -107,7 +107,7 @@ def _lists(draw):
     }
 
 
-CFG_SIM = gen.Cfg(facilities=True, max_workers=4, min_tasks=3, max_time=[30], p_auto=12, tie_rich=4, kinds=[0, 0, 0, 1])
+CFG_SIM = gen.Cfg(warm=4, facilities=True, max_workers=4, min_tasks=3, max_time=[30], p_auto=12, tie_rich=4, kinds=[0, 0, 0, 1])
 
 
 @st.composite
